@@ -13,7 +13,8 @@ EXPLANATION = ("R13.1 routing table of FlexiLogger::log over brace lists of k<=2
                "MultiWriter::write, each stream with its own format function and stream; R13.4 Duplicate<->u8 identity on 0..=6, "
                "adapt_duplication_to_* store into the field the matching region reads; R13.5 enabled() never answers false for a level the "
                "addressed writer accepts."
-               " R13.3 also: on a row on which the write to the file writer / additional primary writer failed, both duplication decisions have been taken (a failing primary output does not suppress the duplicates).")
+               " R13.3 also: on a row on which the write to the file writer / additional primary writer failed, both duplication decisions have been taken (a failing primary output does not suppress the duplicates)."
+               " R13.7 stream wiring: what a Logger setter stores for one stream (duplication level, format function) is handed by Logger::build to that stream's parameter of the PrimaryWriter constructor and stored in that stream's field of the MultiWriter / passed to that stream's StdWriter.")
 ASSUMPTIONS = ["log::Level/LevelFilter order Off<Error<Warn<Info<Debug<Trace (documented discriminants)", "HashMap::get finds exactly the registered names"]
 NOT_DECIDED = ["what a syslog datagram looks like", "terminal capture of print macros", "lists longer than the unrolling bound (same loop body)"]
 FLOORS = {'R13.1': 1, 'R13.2': 1, 'R13.3': 2, 'R13.4': 3}
@@ -46,6 +47,10 @@ def run(R, ctx):
     R.rule('R13.6', 'global max level >= every additional writer\'s ceiling (shared with R02.4)')
     import c02
     c02.global_gate(_Relabel(R, 'R02.4', 'R13.6'), ctx)
+    # `the configured duplication level` of a stream is the one the user set for THAT stream: stream-by-stream wiring of the construction chain
+    R.rule('R13.7', 'stream wiring: setter -> Logger field -> build -> PrimaryWriter constructor -> MultiWriter field, stream by stream')
+    import wiring
+    wiring.wiring(R, ctx, 'R13.7')
 
 
 class _Relabel:
